@@ -136,7 +136,7 @@ def body_factory(ctx):
 @st.composite
 def map_cases(draw):
     n = draw(st.integers(1, 30))
-    vals = st.one_of(st.integers(-3, 3).map(float), gens.fl(-50, 50))
+    vals = st.one_of(st.integers(-3, 3).map(float), gens.fl(-50, 50), st.just(float("-inf")))
     return {"ln_prior": [draw(vals) for _ in range(n)], "ln_like": [draw(vals) for _ in range(n)]}
 
 
@@ -153,6 +153,9 @@ def map_body_factory(ctx):
         s["ln_prior"] = np.array(case["ln_prior"])
         s["ln_likelihood"] = np.array(case["ln_like"])
         post = np.array(case["ln_prior"]) + np.array(case["ln_like"])
+        if not np.isfinite(post).any():
+            ctx.classes["map:outside domain (no finite log-posterior)"] += 1
+            return
         best = max(post)
         want = [i for i in range(n) if post[i] == best][0]
         with ctx.sut("MAP_sample"):
